@@ -346,10 +346,17 @@ class Real:
         return self.fresh[key]
 
 
-def culprit(calls: list[dict[str, Any]], i: int) -> dict[str, Any] | None:
-    """The nearest call at or before position i that is not a plain call / probe."""
-    for j in range(i, -1, -1):
-        if calls[j]["label"] not in ("plain", "probe"):
+def leaves_dirty(fv: dict[str, Any]) -> bool:
+    """REAL observation: the call, alone on a fresh connection, does not leave it clean."""
+    st = fv["state"]
+    return bool(st["s2c"]) or st["srv"] != "top" or fv["cli"] != "idle" or bool(st["c2s_unread"])
+
+
+def culprit(calls: list[dict[str, Any]], fresh: list[dict[str, Any]], i: int) -> dict[str, Any] | None:
+    """The first call before position i that -- observed alone on the real code -- leaves the connection dirty
+    (None: every earlier call is clean on its own; the history as a whole is what breaks)."""
+    for j in range(i):
+        if leaves_dirty(fresh[j]):
             return calls[j]
     return None
 
@@ -479,7 +486,7 @@ def run(ctx: Any) -> None:
             if tr == exp and not blocked:
                 continue
             # call i blocks even on a fresh connection -> it is the culprit itself; otherwise something before it broke the connection
-            cu = calls[i] if tr == exp else culprit(calls, i - 1)
+            cu = calls[i] if tr == exp else culprit(calls, fresh, i)
             if cu is not None and cu["label"] == "abandon" and is_open_abandon(cu, real.fresh_view(cu)):
                 verdict = "desync after an abandoned OPEN session (not an ended call)"
                 break
